@@ -74,13 +74,22 @@ class SqliteProxy:
         return getattr(_sqlite3, n)
 
 
+_FUNCS = {}
+
+
 def make_func(module, qualname):
+    """One function object per (module, qualname), as in a real program: traces of the same function compare equal when their
+    types do (a store that de-duplicates CallTrace objects instead of rows then drops textually different rows)."""
+    if (module, qualname) in _FUNCS:
+        return _FUNCS[(module, qualname)]
+
     def f():
         pass
 
     f.__module__ = module
     f.__qualname__ = qualname
     f.__name__ = qualname.split(".")[-1]
+    _FUNCS[(module, qualname)] = f
     return f
 
 
